@@ -35,6 +35,31 @@ type c02Case struct {
 	af     bool   // cache almost full (only with on-demand off)
 	fb     bool   // fallback certificate cached
 	iss    string // ok | fail | flaky (fails with retry once, then ok)
+	tr     string // Config.SubjectTransformer: "" (none) | wild | site
+}
+
+// c02Transform is the function given to Config.SubjectTransformer (an INPUT of the scenario; the
+// harness uses the same function to know which subject belongs to a server name):
+//   wild — the documented use: the left-most label of a name of three or more labels becomes `*`
+//          (every host of a zone is served with the zone's wildcard certificate);
+//   site — every host directly below example.com is served with the certificate of
+//          site.example.com (wildcard subjects and deeper names are left alone).
+// Both are idempotent. "" = no transformer configured.
+func c02Transform(tr, name string) string {
+	switch tr {
+	case "wild":
+		labels := strings.Split(name, ".")
+		if len(labels) < 3 {
+			return name
+		}
+		labels[0] = "*"
+		return strings.Join(labels, ".")
+	case "site":
+		if strings.HasSuffix(name, ".example.com") && !strings.HasPrefix(name, "*") && strings.Count(name, ".") == 2 {
+			return "site.example.com"
+		}
+	}
+	return name
 }
 
 const c02Base = "v.example.com"
@@ -88,7 +113,8 @@ type c02Env struct {
 	mgr     *hsManager
 	cur     *x509.Certificate   // the scenario's certificate
 	fbLeaf  *x509.Certificate
-	certFor string              // name the scenario's certificate is for
+	certFor string              // subject the scenario's certificate is for
+	host    string              // server name that certificate belongs to (= certFor without a transformer)
 	managed map[string]struct{} // the harness's own record of the names handed to Manage* (the oracle's allow-list)
 	nManage int
 }
@@ -158,6 +184,9 @@ func c02Setup(ca *vCA, c c02Case) *c02Env {
 		cf.OnDemand = od
 		cf.DisableARI = !c.ari
 		cf.DefaultServerName = dflt
+		if c.tr != "" {
+			cf.SubjectTransformer = func(_ context.Context, name string) string { return c02Transform(c.tr, name) }
+		}
 		co.RenewCheckInterval = 100000 * time.Hour
 		co.OCSPCheckInterval = 100000 * time.Hour
 		co.Capacity = capacity
@@ -181,8 +210,12 @@ func c02CertName(cfg *Config, hello *tls.ClientHelloInfo) string {
 
 func c02Prepare(t *testing.T, ca *vCA, e *c02Env, c c02Case, hello *tls.ClientHelloInfo) {
 	ctx := context.Background()
-	name := c02CertName(e.cfg, hello)
-	e.certFor = name
+	// the server name the scenario is about, and the certificate subject that belongs to it (the
+	// name itself unless a SubjectTransformer is configured): bundles are stored, cached and
+	// revoked under the SUBJECT, the policy (allow-list) is about the NAME
+	host := c02CertName(e.cfg, hello)
+	name := c02Transform(c.tr, host)
+	e.certFor, e.host = name, host
 	if c.af {
 		// fill the cache (capacity 1) with an unrelated unmanaged certificate
 		cp, kp, _ := ca.vKeyPair([]string{"other.example.net"}, hsEpoch.Add(-time.Hour), hsEpoch.Add(1000*time.Hour))
@@ -209,7 +242,7 @@ func c02Prepare(t *testing.T, ca *vCA, e *c02Env, c c02Case, hello *tls.ClientHe
 	case strings.HasPrefix(c.state, "wild-cached"):
 		// the certificate that serves the name is a cached managed WILDCARD (due; its bundle possibly
 		// gone from storage): the policy is asked about the handshake's name, not the wildcard's
-		w := hsWild(name)
+		w := c02Transform(c.tr, hsWild(host))
 		b := hsMakeBundle(ca, w, validity, c.ari)
 		hsStoreBundle(e.st, e.iss.IssuerKey(), w, b)
 		e.cur = b.leaf
@@ -220,7 +253,7 @@ func c02Prepare(t *testing.T, ca *vCA, e *c02Env, c c02Case, hello *tls.ClientHe
 			hsDeleteBundle(e.st, e.iss.IssuerKey(), w)
 		}
 	case c.state == "wild-stored":
-		w := hsWild(name)
+		w := c02Transform(c.tr, hsWild(host))
 		b := hsMakeBundle(ca, w, validity, c.ari)
 		hsStoreBundle(e.st, e.iss.IssuerKey(), w, b)
 		e.cur = b.leaf
@@ -252,12 +285,17 @@ func c02Prepare(t *testing.T, ca *vCA, e *c02Env, c c02Case, hello *tls.ClientHe
 	// (the list is built by the real Manage* calls; a later call — with other names or with none —
 	// adds to it and never takes anything off it)
 	case "ah", "fdah":
-		e.manage(t, name, "unrelated.example.org")
+		e.manage(t, host, "unrelated.example.org")
 		e.manage(t)
 		e.manage(t, "Later.Example.ORG ")
 	case "am", "fpam":
 		e.manage(t, "unrelated.example.org")
 		e.manage(t)
+	case "at":
+		// the list has the certificate SUBJECT of the name (the zone's wildcard, the site's name), as
+		// an operator who thinks in certificates would write it — the server name itself is not on it
+		// (unless the two are the same string)
+		e.manage(t, name, "unrelated.example.org")
 	case "ae":
 		e.manage(t)
 	}
@@ -267,7 +305,7 @@ type c02Pins struct{ hit, dflt, managed, due, tlpos, revoked, aridue bool }
 
 // what the handshake will see when it looks at the cache / at the certificate it will
 // maintain: read off the real structures just before the handshake
-func c02Probe(e *c02Env, hello *tls.ClientHelloInfo, n string) c02Pins {
+func c02Probe(e *c02Env, c c02Case, hello *tls.ClientHelloInfo, n string) c02Pins {
 	var p c02Pins
 	cert, matched, defaulted := e.cfg.getCertificateFromCache(hello)
 	p.hit, p.dflt = matched, defaulted
@@ -277,9 +315,10 @@ func c02Probe(e *c02Env, hello *tls.ClientHelloInfo, n string) c02Pins {
 	if !matched {
 		// the certificate it would load from storage (exact name, then wildcard variant)
 		var err error
-		cert, err = e.cfg.loadManagedCertificate(context.Background(), n)
+		// (of the subject that belongs to the name, when a transformer is configured)
+		cert, err = e.cfg.loadManagedCertificate(context.Background(), c02Transform(c.tr, n))
 		if err != nil {
-			cert, err = e.cfg.loadManagedCertificate(context.Background(), hsWild(n))
+			cert, err = e.cfg.loadManagedCertificate(context.Background(), c02Transform(c.tr, hsWild(n)))
 		}
 		if err != nil {
 			e.cur = nil
@@ -307,7 +346,24 @@ func c02Handshake(t *testing.T, o *vOut, e *c02Env, c c02Case, hello *tls.Client
 	if nerr != nil {
 		n = strings.TrimSpace(hello.ServerName)
 	}
-	pins := c02Probe(e, hello, n)
+	pins := c02Probe(e, c, hello, n)
+	// the certificate subject that belongs to the handshake's name: the name itself, or what the
+	// scenario's transformer makes of it. Effects are classified relative to the SUBJECT (class n:
+	// its bundle / an order for it; class w: the wildcard variant the loader tries next); the policy
+	// facts (qualifies, on the allow-list, name the decision function is asked about) are about the
+	// NAME the client sent.
+	subj, subjW, trc := n, hsWild(n), "0"
+	if c.tr != "" {
+		subj, subjW = c02Transform(c.tr, n), c02Transform(c.tr, hsWild(n))
+		switch subjW {
+		case subj:
+			trc = "2" // name and wildcard variant have the same subject: the loader asks for it twice
+		case hsWild(subj):
+			trc = "1"
+		default:
+			t.Fatalf("transformer %q: subject %q of the wildcard variant of %q is neither %q nor its wildcard", c.tr, subjW, n, subj)
+		}
+	}
 	e.rec.Mark()
 	mainG := hsGoID()
 	cert, err := e.cfg.GetCertificate(hello)
@@ -319,7 +375,7 @@ func c02Handshake(t *testing.T, o *vOut, e *c02Env, c c02Case, hello *tls.Client
 		mgrCert = e.mgr.cert
 	}
 	res := hsResult(cert, err, e.cur, e.fbLeaf, mgrCert)
-	threads := e.rec.Threads(n)
+	threads := e.rec.Threads(subj)
 	var kids []string
 	for g, evs := range threads {
 		if g != mainG {
@@ -334,8 +390,8 @@ func c02Handshake(t *testing.T, o *vOut, e *c02Env, c c02Case, hello *tls.Client
 		_, allow = e.managed[n]
 	}
 	var sb strings.Builder
-	fmt.Fprintf(&sb, "hs %s %s %s %s %s %s %s %s %s M", hsB01(od), hsB01(fn), hsB01(e.mgr != nil), hsB01(c.af), hsB01(c.ari),
-		hsB01(nerr == nil), hsB01(allow), hexRunes(n), pins)
+	fmt.Fprintf(&sb, "hs %s %s %s %s %s %s %s %s %s %s %s M", hsB01(od), hsB01(fn), hsB01(e.mgr != nil), hsB01(c.af), hsB01(c.ari),
+		hsB01(nerr == nil), hsB01(allow), hexRunes(n), trc, hexRunes(subj), pins)
 	if s := hsToks(threads[mainG]); s != "" {
 		sb.WriteString(" " + s)
 	}
@@ -390,6 +446,10 @@ func c02RunCase(t *testing.T, o *vOut, ca *vCA, c c02Case) {
 	})
 }
 
+// SNI classes combined with a transformer in the product
+var c02TrSNI = map[string]bool{"valid": true, "upper": true, "ulabel": true, "empty-default": true, "empty-ip": true,
+	"forbidden": true, "star": true}
+
 func c02Enumerate() []c02Case {
 	var out []c02Case
 	for _, sni := range c02SNIClasses {
@@ -411,6 +471,15 @@ func c02Enumerate() []c02Case {
 				}
 				out = append(out, c02Case{sni: sni, state: st, policy: "fp", ari: ari, iss: "flaky"})
 				out = append(out, c02Case{sni: sni, state: st, policy: "ae", ari: ari, iss: "flaky"})
+				// a SubjectTransformer configured (the server name and the subject of its certificate are
+				// two strings; the policy is about the former, storage and issuer see the latter)
+				if !ari && c02TrSNI[sni] {
+					for _, tr := range []string{"wild", "site"} {
+						for _, pol := range []string{"fp", "fd", "ah", "at", "ae"} {
+							out = append(out, c02Case{sni: sni, state: st, policy: pol, iss: "ok", tr: tr})
+						}
+					}
+				}
 				// on-demand off
 				for _, af := range []bool{false, true} {
 					for _, fb := range []bool{false, true} {
@@ -487,6 +556,10 @@ func TestVerifC02(t *testing.T) {
 			mgr:    []string{"", "", "none"}[rng.Intn(3)],
 			ari:    rng.Intn(3) == 0,
 			iss:    []string{"ok", "ok", "fail", "flaky"}[rng.Intn(4)],
+			tr:     []string{"", "", "wild", "site"}[rng.Intn(4)],
+		}
+		if c.tr != "" && rng.Intn(2) == 0 && (c.policy == "am" || c.policy == "ah") {
+			c.policy = "at"
 		}
 		if strings.HasPrefix(c.state, "wild-cached") {
 			// (a cached wildcard serving the name is exercised by the product of single handshakes; in a
@@ -516,7 +589,7 @@ func TestVerifC02(t *testing.T) {
 					case "fp", "fd", "fdah", "fpam":
 						e.permit = !e.permit
 					default:
-						n := e.certFor
+						n := e.host
 						if _, ok := e.managed[n]; ok {
 							// (there is no API that takes a name off the list: the harness does it, in
 							// the real list and in its own record)
